@@ -74,7 +74,20 @@ func runRPC(args []string) []string {
 	ag := newScripted(hx.ParseStrList(args[len(args)-4]), string(hx.UnHex(args[len(args)-3])))
 	cc, sc := socketPair()
 	done := make(chan error, 1)
-	go func() { err := yubiagent.ServeAgent(ag, sc); sc.Close(); done <- err }()
+	var served string
+	go func() {
+		// a panic of ServeAgent would end the real agent process: report it as a crash of this case
+		defer func() {
+			if r := recover(); r != nil {
+				served = fmt.Sprint(r)
+				sc.Close()
+				done <- nil
+			}
+		}()
+		err := yubiagent.ServeAgent(ag, sc)
+		sc.Close()
+		done <- err
+	}()
 	cl, err := yubiagent.NewClientFromConn(cc)
 	if err != nil {
 		panic(err)
@@ -184,6 +197,9 @@ func runRPC(args []string) []string {
 	case <-done:
 	case <-time.After(2 * time.Second):
 		return []string{"hang"}
+	}
+	if served != "" {
+		return []string{"crash", hx.HexS(served)}
 	}
 	var lg []string
 	for _, l := range ag.log {
